@@ -40,6 +40,12 @@ CLAIMED = {
    note="Trusted: Lean kernel; hand transliteration of collectPackages (tied by exhaustive small-world runs); git-URL imports and the cache are not modelled (local directories only). 'cycle => error' and 'too deep => error' in general are decided by the exhaustive/random correspondence, not by a theorem. Known finding: order dependence at the depth limit.",
    technique="Lean 4 proof (invariant over the recursive collection) + exhaustive small-world differential correspondence",
    design="§7 C18"),
+ "C12": dict(
+   engine="determinism",
+   text="Kernel-checked: every `range` over a map in /repo/tooling (re-extracted with go/types on every run and classified against committed expectations) is in an order-free class; each class is order-free for all sizes (commutative fold, sorted keys, diagnostics sink sorted by a total key - any sorting algorithm); both sinks still compare file, line, column and message. Tied to the CLI by repeated executions (fresh map seeds per process) on packages that put >= 3 entries in every listed map, diffing every output byte, plus an idempotence run (no file touched).",
+   note="Trusted: Lean kernel; the go/types extractor; the hand classification of the 14 loop bodies (a changed body invalidates it); filesystem, templates and WriteFileIfNeeded are only exercised, not modelled.",
+   technique="Lean 4 proof (permutation invariance) + go/types site extraction + repeated-run differential",
+   design="§7 C12"),
 }
 NOT_YET = "machinery for this property is not built yet in this round (see DESIGN.md §10 build order)"
 checks, na = [], []
@@ -71,6 +77,8 @@ m = {
     "kind_free_text": "typing/parenthesisation model of computed fields over tables regenerated from /repo (harness/py/gen_tables.py, harness/go/cmd/inproc)"},
    {"name": "imports", "path": "lean/YardlModel/Imports.lean", "serves_properties": ["C18"],
     "kind_free_text": "model of collectPackages; worlds enumerated by checks/c18.py"},
+   {"name": "determinism", "path": "lean/YardlModel/Determinism.lean", "serves_properties": ["C12"],
+    "kind_free_text": "sorted sinks / map iteration as adversarial permutation; sites from harness/go/cmd/facts"},
    {"name": "wire", "path": "lean/YardlModel/Wire.lean", "serves_properties": ["C01", "C03", "C15", "C16", "C17"],
     "kind_free_text": "Lean model of the binary format + buffered stream implementations; line-protocol driver lean/Main/WireDriver.lean"},
  ],
